@@ -74,7 +74,7 @@ class FnItem:
 
 
 class Frame:
-    __slots__ = ("fn", "loc", "bb", "ret_dst", "ret_bb")
+    __slots__ = ("fn", "loc", "bb", "ret_dst", "ret_bb", "wrap")
 
     def __init__(self, fn):
         self.fn = fn
@@ -82,6 +82,7 @@ class Frame:
         self.bb = 0
         self.ret_dst = None
         self.ret_bb = None
+        self.wrap = None
 
 
 class State:
@@ -127,7 +128,7 @@ def _cp(v, memo):
     if isinstance(v, Frame):
         n = Frame(v.fn)
         memo[i] = n
-        n.bb, n.ret_dst, n.ret_bb = v.bb, v.ret_dst, v.ret_bb
+        n.bb, n.ret_dst, n.ret_bb, n.wrap = v.bb, v.ret_dst, v.ret_bb, v.wrap
         n.loc = {k: _cp(x, memo) for k, x in v.loc.items()}
         return n
     if isinstance(v, Opaque):
@@ -608,7 +609,7 @@ class Engine:
                 return rhs[:i], "tuple", rhs[i + 1:-1]
             elif d == 0 and ch == "{" and rhs.endswith("}"):
                 return rhs[:i].strip(), "struct", rhs[i + 1:-1]
-        if re.match(r"^[\w:<>' ,&\[\]]+$", rhs):
+        if d == 0 and re.search(r"[\w>]$", rhs) and "::" in rhs:
             return rhs, None, ""
         return None, None, None
 
@@ -799,6 +800,8 @@ class Engine:
         t = stmts[-1]
         if t == "return":
             rv = fr.loc.get(0)
+            if fr.wrap == "ok":
+                rv = Agg("Result", BV(0, 64), {0: rv})
             st.stack.pop()
             if not st.stack:
                 return [Final("return", rv, st)]
@@ -947,6 +950,9 @@ class Engine:
                     if isinstance(val, BreakPoint):
                         res.append(Final("break", val.payload, s2, val.tag))
                         continue
+                    wrap = None
+                    if type(val).__name__ == "WrapOk":
+                        wrap, val = "ok", val.push
                     if type(val).__name__ == "PushCall":
                         depth = sum(1 for f in s2.stack if f.fn is val.fn)
                         if depth >= self.max_depth:
@@ -957,6 +963,7 @@ class Engine:
                         for k, x in enumerate(val.args):
                             nf.loc[k + 1] = x
                         nf.ret_dst, nf.ret_bb = dst, ret_bb
+                        nf.wrap = wrap
                         s2.stack.append(nf)
                         res.append(s2)
                         continue
